@@ -233,6 +233,8 @@ func runCase(st *Stats, idx int, script []string) (string, string) {
 	human := strings.Join(script, " ")
 	closeReturnedAt := int32(0)
 	var stamp int32
+	enteredBefore := map[int]bool{} // incoming calls whose handler was entered before Close() was called
+	issuedBefore := map[int]bool{}  // outgoing calls issued (and written) before Close() was called
 	for _, ev := range script {
 		f := strings.Split(ev, ":")
 		var extra func() bool
@@ -295,6 +297,14 @@ func runCase(st *Stats, idx int, script []string) (string, string) {
 			in = VL(VS("qrep"), VN(int64(k)))
 		case "close":
 			if !w.closing {
+				for k := range w.ins {
+					if w.pw.isStarted(k) {
+						enteredBefore[k] = true
+					}
+				}
+				for k := range w.outs {
+					issuedBefore[k] = true
+				}
 				w.closing = true
 				go func() {
 					w.ps.Close()
@@ -341,8 +351,45 @@ func runCase(st *Stats, idx int, script []string) (string, string) {
 		}
 		ins = append(ins, in)
 		outs = append(outs, obs)
+		// the property on the implementation's own observations: once Close() has returned,
+		// every handler entered before it began has delivered its genuine reply
+		select {
+		case <-w.closed:
+			for k := range enteredBefore {
+				c := w.ins[k]
+				if atomic.LoadInt32(&c.done) != 1 || c.cls != "ok" {
+					st.Fail(idx, "entered-reply", fmt.Sprintf("Close() returned but incoming call %d (handler entered before Close) has no genuine reply: done=%d class=%s", k, c.done, c.cls), human)
+				}
+			}
+		default:
+		}
 	}
 	_ = closeReturnedAt
+	// the connection is never lost in these timelines and every timeline is drained
+	for k := range enteredBefore {
+		c := w.ins[k]
+		if atomic.LoadInt32(&c.done) != 1 || c.cls != "ok" {
+			st.Fail(idx, "entered-reply", fmt.Sprintf("incoming call %d (handler entered before Close) ended with %s", k, c.cls), human)
+		}
+	}
+	for k := range issuedBefore {
+		c := w.outs[k]
+		select {
+		case <-c.Done():
+			if cl := classOf(c.Status()); cl != "ok" {
+				st.Fail(idx, "own-call", fmt.Sprintf("outgoing call %d issued before Close ended with %s although the connection was not lost", k, cl), human)
+			}
+		default:
+			st.Fail(idx, "own-call", fmt.Sprintf("outgoing call %d issued before Close never completed", k), human)
+		}
+	}
+	if w.closing {
+		select {
+		case <-w.closed:
+		case <-time.After(settleTimeout):
+			st.Fail(idx, "close-returns", "Close() did not return after every handler and call had finished", human)
+		}
+	}
 	return VL(ins...), VL(outs...)
 }
 
